@@ -368,6 +368,10 @@ def _fix_tables(node):
         if not cols or any(c.get('t') != 'list' for c in cols) or len({len(c['items']) for c in cols}) != 1 or len(cols[0]['items']) == 0 \
                 or len(node.get('keys', [])) != len(cols) or not all(isinstance(k_, str) for k_ in node.get('keys', [])):
             node['t'] = 'dict'
+    if node['t'] == 'named':
+        ks = node.get('keys', [])
+        if not ks or len(ks) != len(node['items']) or not all(isinstance(k_, str) and k_.isidentifier() for k_ in ks):
+            node['t'] = 'dict'          # a record class needs at least one field, named by an identifier
     return node
 
 
